@@ -48,6 +48,7 @@ type CPInput struct {
 	Canaries     []bool `json:"canaries,omitempty"` // finalizer present on each owned canary Deployment
 	// canary style: pod template / patch metadata shapes, and the stable Deployment's status
 	TemplateAnnos bool `json:"template_annos,omitempty"`
+	StaleCanaries bool `json:"stale_canaries,omitempty"` // finalize only: the canary Deployments carry an older template than the stable one (after a rollback or a further release)
 	PatchLabels   bool `json:"patch_labels,omitempty"`
 	PatchAnnos    bool `json:"patch_annos,omitempty"`
 	Replicas      int  `json:"replicas,omitempty"`
@@ -102,6 +103,7 @@ func (ctlplaneEngine) Gen(r *rand.Rand, idx int, tier string) any {
 			in.Canaries = append(in.Canaries, chance(r, 75))
 		}
 		in.TemplateAnnos, in.PatchLabels, in.PatchAnnos = chance(r, 50), chance(r, 40), chance(r, 40)
+		in.StaleCanaries = in.Op == "finalize" && chance(r, 35)
 		in.WaitResume = chance(r, 40)
 		n := pick(r, 0, 3, 5)
 		in.Replicas = n
@@ -204,6 +206,9 @@ func (ctlplaneEngine) Run(inAny any) (res any) {
 				Labels:          map[string]string{util.CanaryDeploymentLabel: "wl"},
 				OwnerReferences: []metav1.OwnerReference{{APIVersion: "rollouts.kruise.io/v1beta1", Kind: "BatchRelease", Name: "br", UID: "br-uid", Controller: pointer.Bool(true)}}},
 				Spec: apps.DeploymentSpec{Replicas: &zero, Selector: &metav1.LabelSelector{MatchLabels: map[string]string{"app": "demo"}}, Template: *tmpl.DeepCopy()}}
+			if in.StaleCanaries {
+				c.Spec.Template.Spec.Containers[0].Image = "img:previous"
+			}
 			if fin {
 				c.Finalizers = []string{util.CanaryDeploymentFinalizer}
 			} else {
